@@ -245,6 +245,7 @@ def run(ctx):
                 ctx.violation(f"C12:{label}:eq-not-symmetric", f"{x!r} == {y!r} is {e1}, reverse {e2}; != {n1}/{n2}", {**case, "sig_a": repr(sig_a), "sig_b": repr(sig_b)})
 
     one_way_routes(ctx, env)
+    declared_from_a_prefixed_side(ctx, env)
     temperatures(ctx, env)
     levels(ctx, env)
     exact_magnitudes(ctx, env)
@@ -255,6 +256,46 @@ def run(ctx):
     ctx.require("away_from_ties", 100)
     ctx.require("hash_checks", 5)
     ctx.require("pairs/M-M", 100)
+
+
+def declared_from_a_prefixed_side(ctx, env):
+    """equivalences of the user's own stated with a prefix on the left-hand side ((kilo*pace).equals(1 * mile'),
+    conversions.equate(1 * (kilo*a), 5 * b)) or on the right: the two units then compare coherently in both argument
+    orders - exact binary ratios, values placed well away from ties"""
+    m, rng = env.m, ctx.rng
+    Q, P = m.Quantity, env.pools.prefixes
+    for k in range(6 if ctx.tier == "quick" else 200):
+        a = m.Unit.define(m.Length, f"zqc12pl{ctx.shard}a{k}", f"zqc12pl{ctx.shard}a{k}")
+        b = m.Unit.define(m.Length, f"zqc12pl{ctx.shard}b{k}", f"zqc12pl{ctx.shard}b{k}")
+        pname = rng.choice(["kilo", "mega", "kibi", "milli"])
+        p = P[pname]
+        pv = float(oracle.prefix_value(p))
+        j = rng.choice([1, 2, 4, 0.5])
+        side = rng.choice(["left", "left", "right"])
+        how = rng.choice(["equals", "equate"])
+        if side == "left":
+            (p * a).equals(Q(j, b)) if how == "equals" else env.conv.equate(Q(1, p * a), Q(j, b))
+            a_in_b = j / pv               # 1 a = j/pv b
+        else:
+            a.equals(Q(j, p * b)) if how == "equals" else env.conv.equate(Q(1, a), Q(j, p * b))
+            a_in_b = j * pv
+        for x, y_factor in ((8.0, 1.0), (8.0, 2.0), (3.0, 0.5), (1.0, 1.0)):
+            qa, qb = Q(x, a), Q(x * a_in_b * y_factor, b)      # qb is y_factor times qa
+            want = {"eq": y_factor == 1.0, "ne": y_factor != 1.0, "lt": y_factor > 1.0, "le": y_factor >= 1.0, "gt": y_factor < 1.0, "ge": y_factor <= 1.0}
+            import operator as _op
+            ctx.count("evaluations")
+            ctx.count("pairs/Q-Q/declared_from_a_prefixed_side")
+            ctx.distinct(("prefixed-side", side, how, pname, y_factor), True)
+            case = {"prefix": pname, "side": side, "how": how, "a": repr(qa), "b": repr(qb)}
+            try:
+                got = {n: getattr(_op, n)(qa, qb) for n in want}
+                mirrored = {"eq": qb == qa, "ne": qb != qa, "lt": qb > qa, "le": qb >= qa, "gt": qb < qa, "ge": qb <= qa}
+            except Exception as e:
+                ctx.violation(f"C12:comparison-raised:{type(e).__name__}", f"{qa!r} against {qb!r} after the equivalence was declared with a prefix on the {side}: {e}", case)
+                continue
+            if got != want or mirrored != want:
+                ctx.violation("C12:order-disagrees-with-physical-values", f"after an equivalence declared with a prefix on the {side}-hand side ({how}): {qa!r} vs {qb!r} "
+                              f"(the second is {y_factor} times the first): {got}, with the operands swapped {mirrored}", case)
 
 
 def one_way_routes(ctx, env):
